@@ -137,7 +137,7 @@ Proof.
   unfold data_received. rewrite data_received_ctl_loop'.
   destruct (loop' (feed c bs)) as [[c1 o1] k].
   replace (feed c bs) with (set_spool c bs) in H by (unfold feed; rewrite Hsp; reflexivity).
-  rewrite process_messages_spool in H. destruct (process_messages c ms) as [c2 o2]. exact H.
+  rewrite process_messages_spool in H. destruct (process_messages c ms) as [c2 o2]. split; [exact (proj1 H)|exact (proj1 (proj2 H))].
 Qed.
 
 (* ---------------------------------------------------------------- unknown critical option in a CSM: Abort with Bad-CSM-Option *)
